@@ -3,6 +3,8 @@
 set -eu
 cd "$(dirname "$0")"
 export VERIF_ROOT="$(pwd)"
+# the tree under test: /repo unless VERIF_REPO says otherwise (scratch worktrees for seeded changes)
+ln -sfn "${VERIF_REPO:-/repo}" "$VERIF_ROOT/.repo"
 export CARGO_NET_OFFLINE=true
 export RUSTFLAGS="--cfg bigtools_verif"
 ( cd sim && CARGO_TARGET_DIR="$VERIF_ROOT/target" cargo build --release --offline --bins )
